@@ -206,7 +206,9 @@ class Module:
         self.classes = []
         for node in ast.walk(self.tree):
             for child in ast.iter_child_nodes(node):
-                child._parent = node
+                # (context / operator nodes are singletons shared by every tree)
+                if not isinstance(child, (ast.expr_context, ast.operator, ast.unaryop, ast.cmpop, ast.boolop)):
+                    child._parent = node
         self.tree._parent = None
 
 
